@@ -4,7 +4,7 @@ COMMON_ASSUMPTIONS = [
     "Agave 2.1.20 runtime (solana-program-test) and its bundled SPL Token / Token-2022 / ATA programs are trusted",
     "marginfi is compiled natively from /repo's working tree with the on-chain arithmetic profile (overflow-checks on, debug-assertions off); native code generation stands in for SBF; CU/heap/tx-size limits are not modelled",
     "oracle side uses exact rationals (num-rational) over raw account bytes decoded with the repository's #[repr(C)] layouts; no program math is called by an oracle",
-    "Drift/Solend/Kamino venue handlers are not executed on their accept path (venue programs absent); see DESIGN section 10",
+    "kamino_deposit / kamino_withdraw run their accept path against a harness-side stateful stand-in registered at the Kamino program id (it keeps reserve / obligation books with the venue's floor rounding and moves real tokens; it is not the venue program); Drift/Solend handlers are not executed on their accept path (venue programs absent); see DESIGN sections 10 and 12",
 ]
 
 
@@ -45,10 +45,10 @@ PROPS = {
         "floors": {"quick": {"C06.informative_accruals/AccrueInterest": 30, "C06.informative_accruals/Deposit": 30, "C06.informative_accruals/Withdraw": 10, "C06.informative_accruals/Borrow": 10, "C06.informative_accruals/Repay": 10}},
     },
     "C16": {
-        "engines": [storm()],
-        "rule": "each evaluation is the structural predicate on one MarginfiAccount after one instruction or at one commit; distinct = (where, number of active positions, tag set, flags)",
-        "assumptions": COMMON_ASSUMPTIONS,
-        "floors": {"quick": {"ix_ok/Deposit": 500, "ix_ok/Borrow": 100}},
+        "engines": [storm(sq=12, st=12), storm("venue", arg="C16:venue", sq=4, st=4)],
+        "rule": "each evaluation is the structural predicate on one MarginfiAccount after one instruction or at one commit; distinct = (where, number of active positions, tag set, flags); the venue engine drives worlds with up to 10 Kamino pass-through banks and saturates the integration cap (one account enters every venue bank in turn)",
+        "assumptions": COMMON_ASSUMPTIONS + ["integration positions are opened through kamino_deposit and liquidation only (one integration kind); the cap shared across kinds is exercised with Kamino positions alone"],
+        "floors": {"quick": {"ix_ok/Deposit": 500, "ix_ok/Borrow": 100, "ix_ok/KaminoDeposit": 300, "venue.cap_probes_saturated_at_8": 3}},
     },
     "C17": {
         "engines": [storm()],
@@ -106,10 +106,10 @@ PROPS = {
         "floors": {"quick": {"C18.configs_accepted/valid-random": 200, "C18.configs_accepted/adjacent-utils": 200, "C18.configs_accepted/extreme-rates": 200, "C18.configs_accepted/legacy": 50, "C18.configured_points_checked": 2000}},
     },
     "C20": {
-        "engines": [direct("C20")],
-        "rule": "each evaluation is one call of a venue conversion / adjustment / staleness function on inputs clustered at overflow cliffs, judged against exact rationals; distinct = (venue, decimals, magnitude classes of supplies and amount)",
-        "assumptions": ["'never rounds in the user's favour' is judged as the statement defines it (round trips, Drift decrement >= increment); comparison against the exact quotient allows the derived truncation error of the scaled supplies"],
-        "floors": {"quick": {"C20.round_trips": 50000, "C20.monotonicity_pairs": 20000, "C20.adjust_i64/some": 10000, "C20.drift_inc_dec/ok": 10000}},
+        "engines": [direct("C20", sq=10, st=10), storm("venue", sq=6, st=6)],
+        "rule": "direct engine: each evaluation is one call of a venue conversion / adjustment / staleness function on inputs clustered at overflow cliffs, judged against exact rationals; distinct = (venue, decimals, magnitude classes of supplies and amount). venue engine (chain rig): each evaluation is one accepted kamino_deposit / kamino_withdraw executed against the stateful venue stand-in, judged in exact rationals on what marginfi booked versus what the venue credited or paid (position credit <= venue collateral credited, credit worth <= tokens paid, tokens received <= worth of the position decrease, bank books <= obligation collateral, pass-through vault unchanged), plus deposit-then-withdraw-all round trips and borrow / withdraw probes against a reserve that was not refreshed in the current slot; distinct adds (instruction, rate class, decimals, empty reserve, withdraw-all, injected venue rounding fault)",
+        "assumptions": ["'never rounds in the user's favour' is judged as the statement defines it (round trips, Drift decrement >= increment); comparison against the exact quotient allows the derived truncation error of the scaled supplies", "the venue engine runs kamino_deposit / kamino_withdraw against a harness-side stand-in of the venue (floor rounding in the venue's favour, optional injected off-by-one/two rounding faults), not the venue program; Drift and Solend handlers are judged by the direct engine only"],
+        "floors": {"quick": {"C20.round_trips": 30000, "C20.monotonicity_pairs": 12000, "C20.adjust_i64/some": 6000, "C20.drift_inc_dec/ok": 6000, "C20.venue_ops/KaminoDeposit": 1000, "C20.venue_ops/KaminoWithdraw": 300, "C20.chain_round_trips": 10, "venue.stale_reserve_borrow_rejected": 10}},
     },
     "C08": {
         "engines": [storm("matrix")],
